@@ -17,7 +17,7 @@ from .. import common, gen, priorgrid_corr as pc, spans_corr as sc
 from ..common import Result, Violation, f2h, h2f
 
 META = dict(
-    level='Lean theorems over the prior-grid model (any ordered field; cdf/ppf uninterpreted): stored row = 0 :: c*(F(t_i)-F(t_{i-1})) with one positive constant c (row_mass), first entry 0, entries non-negative when the cdf values are non-decreasing along the grid, largest entry exactly 1 (over columns >= 1 and over all columns); create_timepoints = 0 :: sorted permutation of the selected quantiles, non-decreasing for non-negative quantiles, strictly increasing iff the selected quantiles are positive and pairwise distinct, always containing every quantile of the k=2 row, each step adding exactly the quantiles of percentiles farther than max_sep from all projected points; nonfixed_nodes = the non-sample node ids, each once, sorted by time, and row_lookup gives a grid row to exactly those; explicit timepoints are stored exactly (sorted) whenever the two time transforms are mutually inverse on them (proved for a constant size; C17 for general histories). Model tied bit-for-bit at Float to the real functions with scipy cdf/ppf values as oracle data. Outside: the scipy distribution functions (contract: monotone cdf, positive quantiles - evaluated per input), float rounding of the time-scale round trip (compared within 4 ulp), the mixture parameters feeding the rows (C14/C15).',
+    level='Lean theorems over the prior-grid model (any ordered field; cdf/ppf uninterpreted): stored row = 0 :: c*(F(t_i)-F(t_{i-1})) with one positive constant c (row_mass), first entry 0, entries non-negative when the cdf values are non-decreasing along the grid, largest entry exactly 1 (over columns >= 1 and over all columns); create_timepoints = 0 :: sorted permutation of the selected quantiles, non-decreasing for non-negative quantiles, strictly increasing iff the selected quantiles are positive and pairwise distinct, always containing every quantile of the k=2 row, each step adding exactly the quantiles of percentiles farther than max_sep from all projected points, and (when cdf inverts ppf on the percentiles) every percentile of every row ending within max_sep of a grid point; nonfixed_nodes = the non-sample node ids, each once, sorted by time, and row_lookup gives a grid row to exactly those; explicit timepoints are stored exactly (sorted) whenever the two time transforms are mutually inverse on them (proved for a constant size; C17 for general histories). Model tied bit-for-bit at Float to the real functions with scipy cdf/ppf values as oracle data. Outside: the scipy distribution functions (contract: monotone cdf, positive quantiles - evaluated per input), float rounding of the time-scale round trip (compared within 4 ulp), the mixture parameters feeding the rows (C14/C15).',
     note='Lean kernel + {propext, Classical.choice, Quot.sound}; scipy.stats cdf/ppf as oracle tables; sampled bit-exact correspondence',
     technique='algebraic characterisation of the row transform and of sort/prefix structure of the timepoint construction + bit-exact model/implementation correspondence with oracle tables',
     ref='§3 C16',
